@@ -162,7 +162,7 @@ func checkC07(c *core.Ctx) {
 		return
 	}
 
-	c.Stream("random", c.N(1500, 20000), func(i int, r *rand.Rand) {
+	c.Stream("random", c.N(4000, 40000), func(i int, r *rand.Rand) {
 		p := model.RandPiece(r, model.GenOpts{MinLen: 1, MaxLen: c.N(10, 30), RestProb: 0.3, SettingProb: 0.3, TextProb: 0.25, KeyChanges: true, BassProb: 0.3, MaxDeg: 9})
 		var f model.Flags
 		if r.Intn(3) == 0 {
